@@ -98,7 +98,7 @@ func drawCoreRetunes(t *rapid.T, cfg sim.CoreCfg) []coreRetune {
 			r.A[1] = cfg.EP[r.EP].RcvWnd * rapid.SampledFrom([]int{1, 2, 8}).Draw(t, "retuneRcvMul")
 		} else {
 			r.Kind = "nodelay"
-			r.A = [4]int{rapid.IntRange(0, 1).Draw(t, "rtNd"), rapid.SampledFrom([]int{10, 20, 40, 100, 200}).Draw(t, "rtIv"), rapid.SampledFrom([]int{0, 1, 2, 5}).Draw(t, "rtRs"), rapid.IntRange(0, 1).Draw(t, "rtNc")}
+			r.A = [4]int{rapid.IntRange(-1, 2).Draw(t, "rtNd"), rapid.SampledFrom([]int{-1, 5, 10, 20, 40, 100, 200, 1000, 9000}).Draw(t, "rtIv"), rapid.SampledFrom([]int{-1, 0, 1, 2, 5}).Draw(t, "rtRs"), rapid.IntRange(-1, 1).Draw(t, "rtNc")}
 		}
 		out = append(out, r)
 	}
